@@ -42,8 +42,8 @@ pub fn def() -> CheckDef {
             batch(Wire { name: "wire-delayed-drain", prompt: true, pool: 3, steps: 250, faults: false, lockstep: false }, 15_000, 1_000_000, false),
             batch(Wire { name: "wire-delayed-sent", prompt: false, pool: 3, steps: 250, faults: false, lockstep: false }, 15_000, 1_000_000, false),
             batch(Wire { name: "wire-delayed-sent-faults", prompt: false, pool: 4, steps: 400, faults: true, lockstep: false }, 10_000, 600_000, true),
-            batch(crate::engines::p2p::modeb::RealManager { name: "real-manager-tcpinterface", faults: false }, 2_000, 120_000, false),
-            batch(crate::engines::p2p::modeb::RealManager { name: "real-manager-tcpinterface-faults", faults: true }, 2_000, 120_000, true),
+            batch(crate::engines::p2p::modeb::RealManager { name: "real-manager-tcpinterface", faults: false, cuts: false }, 2_000, 120_000, false),
+            batch(crate::engines::p2p::modeb::RealManager { name: "real-manager-tcpinterface-faults", faults: true, cuts: false }, 2_000, 120_000, true),
         ],
         rule: "seeded schedules interleaving commands (incl. repeated housekeeping), output draining, delivery of Connected/Sent/Recv/Error/Disconnected in any order a real connection allows, and replies of conformant responders (incl. AwaitReply, NoBlocks, Refuse, QueryReply); every Send dispatched to a connected peer is judged by the per-peer per-protocol spec automaton; a further pair of batches runs the real Manager + TcpInterface over seeded pipes against simulated nodes that judge every message they read off the wire, the application issuing a command only after the manager went quiet; non-trivial = completed schedule with a non-neutral choice; distinct = distinct event traces",
         real: vec!["InitiatorBehavior and all sub-behaviours", "InitiatorState::apply_msg", "protocol::*::State::apply", "OutboundQueue", "real-manager batches: Manager::poll_next/execute, TcpInterface + TcpConnectionPool (send/recv/connect futures, writer mutex), network2 Bearer read_full_msgs/write_message, AnyMessage codec"],
